@@ -7,7 +7,8 @@
     reported with exactly matching pairs on affine networks, a wrong one is not).
 [R] every case is run through pymoto.finite_difference with a recording test_fn; the callback sequence
     (x0, dx, analytical, numerical) and the final states / sensitivities are compared with TLC's, with the source
-    signals realised as plain Signals, as Signals with an allocated sensitivity, and as SignalSlice views.
+    signals realised as plain Signals, as Signals with an allocated sensitivity, and as SignalSlice views
+    (basic slice and index array).
 """
 import contextlib
 import io
@@ -192,7 +193,7 @@ def concrete(sigdef, cplx):
     return arr if (cplx or np.any(arr.imag != 0)) else arr.real.copy()
 
 
-REALISATIONS = ("plain", "prealloc", "slice")
+REALISATIONS = ("plain", "prealloc", "slice", "slice-indexarray")
 
 
 def run_case(c, expected, real="plain"):
@@ -211,10 +212,11 @@ def run_case(c, expected, real="plain"):
         st = concrete(d, cplx_of[s] or any(v[1][0] != 0 for v in d["v"]))
         if real == "prealloc":
             sigs[s] = pym.Signal("s%d" % s, st, np.zeros_like(st) if isinstance(st, np.ndarray) else 0 * st)
-        elif real == "slice" and isinstance(st, np.ndarray):
+        elif real in ("slice", "slice-indexarray") and isinstance(st, np.ndarray):
             big = np.concatenate([[9.0], st, [7.0, 5.0]])
             parents[s] = (pym.Signal("p%d" % s, big), big.copy())
-            sigs[s] = parents[s][0][1:1 + st.size]
+            # a basic slice is a view of the parent's array; an index array hands out copies and writes back through the setter
+            sigs[s] = parents[s][0][1:1 + st.size] if real == "slice" else parents[s][0][np.arange(1, 1 + st.size)]
         else:
             sigs[s].state = st
     mods = [_CL[m["k"]]([sigs[i] for i in m["i"]], [sigs[o] for o in m["o"]]) for m in c["prog"]]
